@@ -19,13 +19,14 @@ import os
 from vlib import common as C
 
 SIMPLE = ["hash", "fit", "iga", "ide", "mati", "matu", "dist"]
-BIG = ["imep", "team", "pop", "summ"]
+BIG = ["imep", "team", "pop", "summ", "cache"]
 REST = {"fit": "-"}          # unread rest after load (hex); default "0a" (the final newline)
 
 COUNTS = {   # objects per type: (quick, thorough)
     "hash": (300, 3000), "fit": (1500, 20000), "iga": (600, 6000), "ide": (600, 6000),
     "mati": (300, 3000), "matu": (300, 3000), "dist": (400, 4000),
     "imep": (800, 8000), "team": (200, 2000), "pop": (150, 1500), "summ": (300, 3000),
+    "cache": (300, 3000),
 }
 NEEDS_CTX = {"imep", "team", "pop", "summ"}
 
@@ -80,6 +81,8 @@ def gen_objects(exe, seed, n, typ, want_pending=False):
         elif l.startswith("obj "):
             o = parse_obj(l)
             o["ctx"] = ctx if o["type"] in NEEDS_CTX else ""
+            if o["type"] == "cache":
+                o["ctx"] = o["ints"].split()[0]          # the fresh target has the same number of bits
             objs.append(o)
             pending = None
     return (rc, objs, se, pending) if want_pending else (rc, objs, se)
@@ -163,7 +166,10 @@ def run(chk, replay=None):
                               f"({o['verdict']}); object = {o['ints'][:300]}", rep, tags=tags)
             if ans is not None:
                 msave, mload = ans[k]
-                want = "ok " + o["ints"] + " | " + REST.get(typ, "0a")
+                rest = REST.get(typ, "0a")
+                if typ == "cache":       # the last fitness line is read with getline: nothing is left
+                    rest = "0a" if o["ints"].split()[2] == "0" else "-"
+                want = "ok " + o["ints"] + " | " + rest
                 agree = (msave == o["hex"]) and (mload == want if o["verdict"] == "ok" else True)
                 if o["verdict"] != "ok" and o["verdict"] == "bad:load-failed" and mload != "fail":
                     agree = False
